@@ -159,6 +159,9 @@ type Body struct {
 	// http.Transport response whose peer stops sending - until the request's context ends
 	// (it then returns the context's error) or the body is closed.
 	StallAt int `json:"stall_at,omitempty"`
+	// PauseAt > 0: the bytes from PauseAt-1 on arrive one second after those before them (a
+	// reply that is streamed); the read in between waits like a read from a connection.
+	PauseAt int `json:"pause_at,omitempty"`
 	// ShortBy > 0: the body yields that many bytes fewer than its declared Content-Length and
 	// then a clean EOF (an upstream RoundTripper that builds or rewrites responses can do that;
 	// http.Transport would report io.ErrUnexpectedEOF).
